@@ -607,3 +607,128 @@ Proof.
     - rewrite ET, <- !app_assoc. reflexivity. }
   exists e. rewrite TXT. auto.
 Qed.
+
+(** * A [$] inserted in a [$ $] formula: it closes the formula early; the rest
+    [l2] of the formula body is read in the enclosing body (outside math mode:
+    it has to be well formed there too) and the formula's own closing [$] OPENS
+    a new formula, which swallows what follows (it has to be well formed in
+    math mode) and is never closed / runs into the enclosing closing delimiter. *)
+Section DollarEarly.
+  Variables (cx : context) (b : list item) (ws tr : str) (a l1 l2 : list item).
+  Let f := FMath b ws MDollar tr a.
+  Let L := b ++ Math ws MDollar l1 [] :: l2.
+
+  Lemma dollar_early_ok hs fh :
+    ok_items cx hs (plug_frame f (l1 ++ l2)) fh = true -> unparse_items l1 <> [] ->
+    ok_items cx hs l2 (hd_error (tr ++ [36%N])) = true ->
+    ok_items cx hs L (hd_error (tr ++ [36%N])) = true /\ ws_ok tr = true /\ f_in_math (ps_f hs) = false
+    /\ ok_items cx hs a fh = true.
+  Proof.
+    intros OKH NE OK2. cbn [plug_frame f] in OKH.
+    rewrite ok_items_app in OKH. apply andb_true_iff in OKH. destruct OKH as [HB HX].
+    rewrite ok_items_cons in HX. apply andb_true_iff in HX. destruct HX as [HX HA].
+    rewrite ok_item_math in HX. apply andb_true_iff in HX. destruct HX as [HX DL].
+    apply andb_true_iff in HX. destruct HX as [HX OKB].
+    apply andb_true_iff in HX. destruct HX as [HX Wt].
+    apply andb_true_iff in HX. destruct HX as [M W].
+    rewrite ok_items_app in OKB. apply andb_true_iff in OKB. destruct OKB as [OK1 _].
+    split; [|split; [exact Wt|split; [apply negb_true_iff; exact M | exact HA]]].
+    unfold L. rewrite ok_items_app. apply andb_true_iff. split.
+    - rewrite <- HB. apply (f_equal (ok_items cx hs b)). rewrite !unparse_items_cons. cbn [unparse_item].
+      destruct ws; cbn [app hd_error]; reflexivity.
+    - rewrite ok_items_cons. apply andb_true_iff. split; [|exact OK2].
+      rewrite ok_item_math, M, W. cbn [andb]. apply andb_true_iff. split.
+      + eapply ok_items_follow; [exact inertf_36 | exact OK1].
+      + rewrite unparse_items_app in DL. rewrite app_nil_r.
+        destruct (unparse_items l1) as [|c0 r0]; [congruence|]. cbn [app] in DL |- *. exact DL.
+  Qed.
+
+  Lemma dollar_early_text pre post :
+    (pre ++ lf_text (left_of f)) ++ unparse_items l1 ++ [36%N] ++ (unparse_items l2 ++ right_text f ++ post)
+    = pre ++ unparse_items L ++ tr ++ [36%N] ++ unparse_items a ++ post.
+  Proof.
+    unfold L, f, lf_text. cbn [left_of lf_before lf_ws lf_open right_text m_open m_close].
+    rewrite unparse_items_app, unparse_items_cons. cbn [unparse_item m_open m_close]. fold (unparse_items l1).
+    rewrite ?app_nil_r, <- !app_assoc. cbn [app]. reflexivity.
+  Qed.
+End DollarEarly.
+
+(** the formula stands at top level: rejected when the input ends *)
+Theorem fault_dollar_early_top cx b ws tr a l1 l2 dtr :
+  let f := FMath b ws MDollar tr a in
+  let ps0 := walker_state cx in
+  ok_doc cx (zdoc [f] l1 l2 dtr) = true -> unparse_items l1 <> [] ->
+  ok_items cx ps0 l2 (hd_error (tr ++ [36%N])) = true ->
+  ok_items cx (ps_enter_math ps0 (Some [36%N])) a (hd_error dtr) = true ->
+  hd_not (fun c => N.eqb c 36) (unparse_items a ++ dtr) ->
+  let s := zleft [f] l1 ++ [36%N] ++ zright [f] l2 dtr in
+  let q := length (unparse_items (b ++ Math ws MDollar l1 [] :: l2)) + length tr + 1 in
+  exists e, parse_top s false cx ps0 = PErr e (length s) /\ pe_pos e = Some q /\ pe_what e = 6.
+Proof.
+  intros f ps0 OKD NE OK2 OKA DL s q. unfold ok_doc, ok_doc_in, zdoc in OKD. cbn [d_items d_trail plug] in OKD.
+  apply andb_true_iff in OKD. destruct OKD as [OKD Wd].
+  destruct (dollar_early_ok cx b ws tr a l1 l2 ps0 _ OKD NE OK2) as (OKL & Wt & M & _).
+  destruct (fault_opening cx (b ++ Math ws MDollar l1 [] :: l2) tr (OMath MDollar) a dtr OKL Wt M OKA Wd (fun _ => DL))
+    as (e & H & P & Wh).
+  cbn zeta in H. cbn [open_text m_open length] in H, P.
+  assert (TXT : s = unparse_items (b ++ Math ws MDollar l1 [] :: l2) ++ tr ++ [36%N] ++ unparse_items a ++ dtr).
+  { unfold s, zleft, zright. cbn [lefts map lp_text flat_map rp_text app]. rewrite app_nil_r.
+    pose proof (dollar_early_text b ws tr a l1 l2 [] dtr) as E. cbn [app] in E |- *.
+    rewrite <- !app_assoc. cbn [app]. exact E. }
+  exists e. rewrite TXT. auto.
+Qed.
+
+(** the formula stands in a nested body ([path ++ [g]], closing delimiter [c] of
+    [g]): the new formula runs into [c] and is rejected there *)
+Theorem fault_dollar_early_nested cx path g b ws tr a l1 l2 dtr c :
+  let f := FMath b ws MDollar tr a in
+  let hs := lp_state cx (walker_state cx) (lefts (path ++ [g])) in
+  ok_doc cx (zdoc ((path ++ [g]) ++ [f]) l1 l2 dtr) = true -> closer_of g = Some c -> unparse_items l1 <> [] ->
+  ok_items cx hs l2 (hd_error (tr ++ [36%N])) = true ->
+  ok_items cx (ps_enter_math hs (Some [36%N])) a (hd_error (frame_tr g ++ stray_text c)) = true ->
+  hd_not (fun c0 => N.eqb c0 36) (unparse_items a ++ frame_tr g ++ stray_text c) ->
+  let q := length (lp_text (lefts (path ++ [g]))) + length (unparse_items (b ++ Math ws MDollar l1 [] :: l2))
+           + length tr + 1 + length (unparse_items a) + length (frame_tr g) in
+  exists e,
+    parse_top (zleft ((path ++ [g]) ++ [f]) l1 ++ [36%N] ++ zright ((path ++ [g]) ++ [f]) l2 dtr)
+              false cx (walker_state cx)
+    = PErr e (q + length (stray_text c))
+    /\ pe_pos e = Some q /\ pe_what e = stray_what c.
+Proof.
+  intros f hs OKD CO NE OK2 OKA DL q. destruct (closer_of_text g c CO) as [CT SW].
+  unfold ok_doc, ok_doc_in, zdoc in OKD. cbn [d_items d_trail] in OKD.
+  apply andb_true_iff in OKD. destruct OKD as [OKD _]. rewrite plug_app in OKD. cbn [plug] in OKD.
+  destruct (ok_plug_last cx path g _ _ _ OKD) as [OKB Wg]. fold hs in OKB. rewrite CT in OKB.
+  destruct (ok_plug cx (path ++ [g]) _ _ _ OKD) as (OKP & DLb & _).
+  destruct (dollar_early_ok cx b ws tr a l1 l2 hs _ OKB NE OK2) as (OKL & Wt & M & _).
+  set (L := b ++ Math ws MDollar l1 [] :: l2) in *.
+  assert (ND : last_dollar (path ++ [g]) = true -> not_dollar (hd_error (unparse_items L ++ tr ++ open_text (OMath MDollar)))).
+  { intros LD. exfalso. clear -LD CO. induction path as [|f0 r IH].
+    - cbn [app last_dollar] in LD. destruct g as [| ? ? k ? ?|]; try discriminate. destruct k; discriminate.
+    - cbn [app last_dollar] in LD. destruct (r ++ [g]) eqn:E; [destruct r; discriminate|]. apply IH. exact LD. }
+  assert (SO : stray_ok (open_opts (open_state cx hs (OMath MDollar)) (OMath MDollar)) c).
+  { destruct c as [|k|x]; try exact I. cbn. destruct k; [|discriminate|discriminate].
+    exfalso. cbn in SW. congruence. }
+  set (gg := after_text g ++ rp_text path ++ dtr).
+  assert (DL' : OMath MDollar = OMath MDollar ->
+                hd_not (fun c0 => N.eqb c0 36) (unparse_items a ++ frame_tr g ++ stray_text c ++ gg)).
+  { intros _. rewrite !app_assoc. rewrite !app_assoc in DL.
+    set (x := (unparse_items a ++ frame_tr g) ++ stray_text c) in *.
+    assert (NEx : x <> []).
+    { unfold x. destruct (stray_text_hd c) as (h & r & E1 & _). rewrite E1.
+      destruct (unparse_items a ++ frame_tr g); discriminate. }
+    destruct x; [congruence | exact DL]. }
+  destruct (fault_open_nested cx (lefts (path ++ [g])) L tr (OMath MDollar) a (frame_tr g) c gg
+              (OKP _ ND) OKL Wt M OKA Wg SW SO DL') as (e & H & P & Wh).
+  cbn zeta in H. cbn [open_text m_open length] in H, P.
+  assert (TXT : zleft ((path ++ [g]) ++ [f]) l1 ++ [36%N] ++ zright ((path ++ [g]) ++ [f]) l2 dtr
+                = lp_text (lefts (path ++ [g])) ++ unparse_items L ++ tr ++ [36%N] ++ unparse_items a
+                  ++ frame_tr g ++ stray_text c ++ gg).
+  { unfold zleft, zright, gg. rewrite lefts_app, lp_text_app, rp_text_app, (rp_text_app path [g]).
+    cbn [lefts map lp_text flat_map rp_text app]. rewrite app_nil_r, (right_text_split g), CT.
+    pose proof (dollar_early_text b ws tr a l1 l2 (lp_text (map left_of (path ++ [g])))
+                  (frame_tr g ++ stray_text c ++ after_text g ++ rp_text path ++ dtr)) as E.
+    rewrite <- ?app_assoc. cbn [app]. rewrite <- ?app_assoc. rewrite <- ?app_assoc in E. cbn [app] in E.
+    rewrite <- ?app_assoc in E. exact E. }
+  exists e. rewrite TXT. auto.
+Qed.
